@@ -925,8 +925,9 @@ func TestSecretConnRace(t *testing.T) { rapid.Check(t, scProperty) }
 // ---------------------------------------------------------------- exhaustive: every frame x every operation on small streams
 
 // TestSecretConnExhaustive enumerates, for a few small chunkings, every data frame x every manipulation (flip: every
-// byte of the sealed frame, bit chosen from the seed; quick tier: every 8th byte), in the A->B direction with clean
-// traffic flowing B->A, plus every handshake manipulation at every byte.
+// bit of the sealed frame in the thorough tier; in the quick tier every 8th byte with a bit chosen from the seed), in
+// the A->B direction with clean traffic flowing B->A, plus every handshake manipulation at every byte (quick: every
+// 8th).  The enumeration is split over the shards.
 func TestSecretConnExhaustive(t *testing.T) {
 	seed := int(ev.Seed() & 0xffff)
 	step := 8
@@ -976,7 +977,13 @@ func TestSecretConnExhaustive(t *testing.T) {
 				case "flip":
 					args = args[:0]
 					for b := (seed + k) % step; b < frameSealed; b += step {
-						args = append(args, b*8+(seed+b)%8)
+						if ev.Thorough() {
+							for bit := 0; bit < 8; bit++ {
+								args = append(args, b*8+bit)
+							}
+						} else {
+							args = append(args, b*8+(seed+b)%8)
+						}
 					}
 				case "trunc", "cut":
 					args = []int{0, 1, 15, 16, 17, 522, 1043}
